@@ -1295,9 +1295,63 @@ func runSMCase(w *bufio.Writer, r *u.Rng, dist map[string]int, script *smScript)
 	})
 }
 
+// smAcceptLostWakeupProbe: two concurrent AcceptStream callers. Caller A found no stream and is
+// between Unlock and its select (hook: its ctx.Done() is being evaluated) when one frame opens
+// two streams (one wake-up token is buffered, the second send is dropped) and caller B's
+// AcceptStream drains that token and takes the first stream. A then blocks in the select. No
+// lost wake-up means: A must not stay blocked while the second stream is waiting to be accepted.
+func smAcceptLostWakeupProbe(w *bufio.Writer) {
+	for _, client := range []bool{false, true} {
+		for _, uni := range []bool{false, true} {
+			synctest.Run(func() {
+				v := quic.NewVerifSM(client, 10, 10)
+				first := smFirst(uni, !client)
+				var idB int64
+				var eB int
+				h := &smHookCtx{}
+				h.hook = func() <-chan struct{} {
+					v.Recv(first + 4)
+					idB, eB = v.Accept(context.Background(), uni)
+					return nil // never cancelled
+				}
+				var done atomic.Bool
+				var idA int64
+				var eA int
+				go func() {
+					idA, eA = v.Accept(h, uni)
+					done.Store(true)
+				}()
+				synctest.Wait()
+				in := v.SnapIn(uni)
+				if !done.Load() && in.NextAccept < in.NextOpen {
+					fmt.Fprintf(w, "MONFAIL\tstreamsmap/accept/lost-wakeup\tan AcceptStream caller stays blocked although a stream is waiting to be accepted\tclient=%v uni=%v: A=AcceptStream finds no stream; before A reaches its select: one frame opens streams %d and %d; B=AcceptStream returns stream %d (error class %d); A blocks in the select although stream %d is open and unaccepted (nextStreamToAccept=%d nextStreamToOpen=%d)\n",
+						client, uni, first, first+4, idB, eB, first+4, in.NextAccept, in.NextOpen)
+				} else if done.Load() && (eA != 0 || idA != first+4 || idB != first) {
+					fmt.Fprintf(w, "MONFAIL\tstreamsmap/accept/order\tconcurrent AcceptStream callers got the wrong streams\tclient=%v uni=%v: A got %d (error %d), B got %d (error %d)\n", client, uni, idA, eA, idB, eB)
+				}
+				v.Recv(first + 8) // lets A go in any case
+				synctest.Wait()
+				v.Close()
+				synctest.Wait()
+			})
+		}
+	}
+}
+
 func runStreamsMap(w *bufio.Writer, seed uint64, n int, _ []string) {
 	r := u.NewRng(seed)
 	dist := map[string]int{}
+	smAcceptLostWakeupProbe(w)
+	// RESET_STREAM_AT must only be used when the peer sent the reset_stream_at transport parameter:
+	// a 0-RTT client applies the server's parameters to the streams it already opened.
+	for _, uni := range []bool{false, true} {
+		if rel := quic.VerifSMResetStreamAtProbe(uni, false, false); rel != 0 {
+			fmt.Fprintf(w, "MONFAIL\tstreamsmap/reset-stream-at/not-negotiated\tstream opened during 0-RTT sends RESET_STREAM_AT although the peer did not enable it\tclient, uni=%v: HandleTransportParameters(restored, reset_stream_at absent); Open; Write(10 bytes); HandleTransportParameters(server's, reset_stream_at absent); SetReliableBoundary; CancelWrite => RESET_STREAM frame with ReliableSize %d (0 expected)\n", uni, rel)
+		}
+		if rel := quic.VerifSMResetStreamAtProbe(uni, false, true); rel != 10 {
+			fmt.Fprintf(w, "MONFAIL\tstreamsmap/reset-stream-at/not-enabled\tstream opened during 0-RTT does not use RESET_STREAM_AT although the peer enabled it\tclient, uni=%v: as above with reset_stream_at present in the server's parameters => ReliableSize %d (10 expected)\n", uni, rel)
+		}
+	}
 	for i := 0; i < n; i++ {
 		runSMCase(w, r.Fork(), dist, nil)
 	}
